@@ -3,6 +3,7 @@ import PrologVerif.Driver.C18
 import PrologVerif.Driver.C02
 import PrologVerif.Driver.C03
 import PrologVerif.Driver.C08
+import PrologVerif.Driver.C14
 open PrologVerif PrologVerif.Driver
 
 def handlers : List (String × Handler) :=
@@ -11,7 +12,10 @@ def handlers : List (String × Handler) :=
     ("c02.env", C02.envHandler),
     ("c03.force", C03.handler),
     ("c08.compare", C08.compareHandler),
-    ("c08.sort", C08.sortHandler) ]
+    ("c08.sort", C08.sortHandler),
+    ("c14.table", C14.tableHandler),
+    ("c14.race", C14.raceHandler),
+    ("c14.isolation", C14.isoHandler) ]
 
 partial def loop (h : IO.FS.Stream) (out : IO.FS.Stream) (f : Handler) : IO Unit := do
   let line ← h.getLine
